@@ -114,7 +114,7 @@ def tlc_failed(out):
 def write_evidence(prop, ev):
     if os.environ.get("VERIF_NO_EVIDENCE"):  # runs against seeded changes (tools/seedtest.py) do not touch the evidence
         return
-    d = os.path.join(VERIF, "evidence")
+    d = os.environ.get("VERIF_EVIDENCE_DIR") or os.path.join(VERIF, "evidence")
     os.makedirs(d, exist_ok=True)
     p = os.path.join(d, prop + ".json")
     with open(p + ".tmp", "w") as f:
